@@ -538,6 +538,7 @@ func (f *followingQuery) Select(t iterator) NodeNavigator {
 				}
 			} else {
 				var q *descendantQuery // descendant query
+				start := iteratorFunc(func() NodeNavigator { return node })
 				if node.NodeType() == AttributeNode {
 					// An attribute is followed by the content of its parent element.
 					if node.MoveToParent(); node.MoveToChild() {
@@ -546,7 +547,6 @@ func (f *followingQuery) Select(t iterator) NodeNavigator {
 							Input:     &contextQuery{},
 							Predicate: f.Predicate,
 						}
-						t.Current().MoveTo(node)
 					}
 				}
 				f.iterator = func() NodeNavigator {
@@ -562,9 +562,10 @@ func (f *followingQuery) Select(t iterator) NodeNavigator {
 								Input:     &contextQuery{},
 								Predicate: f.Predicate,
 							}
-							t.Current().MoveTo(node)
 						}
-						if node := q.Select(t); node != nil {
+						// The inner query starts from node through its own iterator: the
+						// caller's context cursor must stay where it is.
+						if node := q.Select(start); node != nil {
 							f.posit = q.posit
 							return node
 						}
@@ -639,6 +640,7 @@ func (p *precedingQuery) Select(t iterator) NodeNavigator {
 				}
 			} else {
 				var q query
+				start := iteratorFunc(func() NodeNavigator { return node })
 				p.iterator = func() NodeNavigator {
 					for {
 						if q == nil {
@@ -653,9 +655,10 @@ func (p *precedingQuery) Select(t iterator) NodeNavigator {
 								Input:     &contextQuery{},
 								Predicate: p.Predicate,
 							}
-							t.Current().MoveTo(node)
 						}
-						if node := q.Select(t); node != nil {
+						// The inner query starts from node through its own iterator: the
+						// caller's context cursor must stay where it is.
+						if node := q.Select(start); node != nil {
 							p.posit++
 							return node
 						}
